@@ -67,6 +67,15 @@ def attempts (c : Cfg) (s : St) (i : In) (first _second : Outcome) : List Mode :
   else if c.interval > 0 && s.syncedSince && i.ageExceeds && decide (i.new > calcWALSize c.pageSize 1) then [.passive]
   else []
 
+/-- `syncLocked`: the checkpoint decision runs unless the chunk was cut by `MaxSyncWALBytes`
+    before the end of the WAL — except in the truncate emergency. -/
+def ckGate (limited syncedToWALEnd exceedsTruncate : Bool) : Bool :=
+  !limited || syncedToWALEnd || exceedsTruncate
+
+/-- `Sync`: the chunk loop stops when a chunk copied nothing, was not cut, or reached the end of the WAL. -/
+def loopExit (synced limited syncedToWALEnd : Bool) : Bool :=
+  !synced || !limited || syncedToWALEnd
+
 /-! ### The idle loop
 
 With no application transaction pinned, a PASSIVE (or TRUNCATE) checkpoint
